@@ -55,8 +55,9 @@ def shrink_scenario_candidates(scn):
     mod(lambda s: s["checkpoint"].__setitem__("mode", "path"))
     mod(lambda s: s["sample_kwargs"]["sampler_kwargs"].__setitem__("n_steps", 1))
     mod(lambda s: s.__setitem__("n_samples", max(8, s["n_samples"] // 2)))
-    mod(lambda s: s["flow"].__setitem__("alpha", 0.0))
-    mod(lambda s: s["flow"].__setitem__("kind", "native") or s.__setitem__("bounded_to_unbounded", False))
+    if scn["flow"].get("backend") == "simflow":
+        mod(lambda s: s["flow"].__setitem__("alpha", 0.0))
+        mod(lambda s: s["flow"].__setitem__("kind", "native") or s.__setitem__("bounded_to_unbounded", False))
     mod(lambda s: s.__setitem__("rng_route", "ctor"))
     mod(lambda s: s.__setitem__("xp", "numpy") or s.__setitem__("dtype", None))
     return out
